@@ -116,13 +116,16 @@ impl World {
         self.notes.push(format!("T|{}|{}|{}|{}|{}|{}", pid, first, last, kind, ver, desc));
     }
     pub fn send_pat(&mut self, kind: &str, damage: u64, rng: &mut Rng) {
-        let s = if kind == "rep" && !self.last_pat.is_empty() { self.last_pat.clone() } else { self.pat_section(rng) };
+        let mut s = if kind == "rep" && !self.last_pat.is_empty() { self.last_pat.clone() } else { self.pat_section(rng) };
+        if kind == "rep" && damage == 0 && rng.chance(1, 4) { s[5] ^= *rng.pick(&[0x40u8, 0x80, 0xc0]); let n = s.len(); let c = crc32_mpeg(&s[..n - 4]); s[n - 4..].copy_from_slice(&c.to_be_bytes()); }
         if damage == 0 { self.last_pat = s.clone(); }
         let d = self.pat_desc(); let v = self.pat_version;
         self.transmit(0, &s, kind, v, &d, damage, rng);
     }
     pub fn send_pmt(&mut self, pid: u16, kind: &str, damage: u64, big: bool, rng: &mut Rng) {
-        let s = if kind == "rep" && self.last_pmt.contains_key(&pid) { self.last_pmt[&pid].clone() } else { self.pmt_section(pid, big, rng) };
+        let mut s = if kind == "rep" && self.last_pmt.contains_key(&pid) { self.last_pmt[&pid].clone() } else { self.pmt_section(pid, big, rng) };
+        // a repetition need not be bit-identical: the reserved bits beside version_number (and the CRC with them) may differ
+        if kind == "rep" && damage == 0 && rng.chance(1, 4) { s[5] ^= *rng.pick(&[0x40u8, 0x80, 0xc0]); let n = s.len(); let c = crc32_mpeg(&s[..n - 4]); s[n - 4..].copy_from_slice(&c.to_be_bytes()); }
         if damage == 0 { self.last_pmt.insert(pid, s.clone()); }
         let d = self.pmt_desc(pid); let v = self.pmts[&pid].version;
         self.transmit(pid, &s, kind, v, &d, damage, rng);
@@ -403,6 +406,9 @@ pub fn gen_c11(tier: &str, seed: u64, emit: &mut dyn FnMut(String)) {
             if target_pat { w.bump_pat(&mut rng); } else { w.bump_pmt(pmt_pid, &mut rng); } }
         let dmg = 1 + (i / 4) as u64 % 5;
         if target_pat { w.send_pat("dmg", dmg, &mut rng); } else { w.send_pmt(pmt_pid, "dmg", dmg, big, &mut rng); }
+        // now and then a unit-start packet whose adaptation field leaves room for the pointer_field and one or two more bytes only
+        // (the chain is reset there: whatever version the damaged start left behind is forgotten)
+        if i % 5 == 3 { let pid = if target_pat { 0 } else { pmt_pid }; let pl = [0u8, if target_pat { 0 } else { 2 }]; let n = 1 + rng.below(2) as usize; w.mux.data_packet(pid, true, &pl[..1 + n.min(1)], &mut rng); }
         // intact copies: the same version first (finding F2 when the damaged start was recorded) ...
         for _ in 0..rng.range(1, 3) { if target_pat { w.send_pat("intact", 0, &mut rng); } else { w.send_pmt(pmt_pid, "intact", 0, big, &mut rng); } }
         w.probes(&mut rng);
